@@ -44,7 +44,7 @@ pub fn message_class(norm: &str) -> String {
         s.push_str(&payload);
     }
     // todo!() / unimplemented!() with a Debug rendering of the offending value; str slicing errors quote the string
-    for key in ["not yet implemented", "not implemented", "is not a char boundary"] {
+    for key in ["not yet implemented", "not implemented", "is not a char boundary", "is out of bounds of"] {
         if let Some(i) = s.find(key) {
             s.truncate(i + key.len());
         }
